@@ -1,3 +1,4 @@
+import AmaranthVerif.Spec.DomainSpec
 import AmaranthVerif.Driver.ExprIO
 import AmaranthVerif.Model.Stmt
 import AmaranthVerif.Spec.Prog
@@ -77,7 +78,13 @@ def handleProc : Sexp → Option String
       let es ← envs.mapM parseEnv
       let outs := es.map fun env =>
         let m := if dom == "comb" then combProcess ctx inits stmt env else syncProcess ctx inits resetLess rst stmt env
-        let sp := if dom == "comb" then progStep ctx prog env inits else progStep ctx prog env env
+        -- Spec of a synchronous step: the active assignments; with the domain's reset asserted the driven bits of
+        -- the non-reset-less signals take their initial values instead
+        let rstOn := match rst with | some r => r % 2 == 1 | none => false
+        let sp := if dom == "comb" then progStep ctx prog env inits
+                  else if rstOn then
+                    mergeDriven ctx prog (fun i => !(resetLess.getD i false)) inits (progStep ctx prog env env)
+                  else progStep ctx prog env env
         let lw := lowerList ctx prog
         let ml := if dom == "comb" then combProcess ctx inits lw env else syncProcess ctx inits resetLess rst lw env
         s!"model={showEnv m} lowered={showEnv ml} spec={showEnv sp}"
